@@ -261,6 +261,10 @@ pub fn analyze(
                 .into_diagnostic()
                 .wrap_err("")?,
         };
+        #[cfg(feature = "verif")]
+        if incremental.is_none() {
+            veryl_path::sim::observe_read("src.read", &path.src, input.as_bytes());
+        }
 
         let watermark = incremental
             .as_ref()
